@@ -183,7 +183,7 @@ def _ref_paths(desc, vids, modname, run_some=False):
                     else:
                         listing.add(rp + '/attempt_0')
                 elif kind == 'list_of_numpy':
-                    listing |= {rp + '/', rp + '/0.npy', rp + '/1.npy'}
+                    listing |= {rp + '/'} | {f'{rp}/{i}.npy' for i in range(worlds.LON_PARTS)}
                 else:
                     listing.add(rp)
             out[vid]['listing'] = sorted(_fix(x, modname) for x in listing)
